@@ -1,3 +1,4 @@
+import SJ.Proofs.SharedAux
 import SJ.Proofs.Machine
 import SJ.Proofs.CanonM
 /-!
